@@ -39,6 +39,10 @@ Section Session.
 
   Inductive event :=
   | ENotify (n : notif)       (* handler.OnSession(cfg, s) *)
+  | ENotifyMig (n : notif) (dc : Z)
+                              (* the same, with a concurrent c.session.Migrate(dc) (invokeMigrate / MigrateTo of
+                                 another goroutine) landing inside it: after onSession stored the session under
+                                 connMux and before saveSession has written the record *)
   | EMigrate (dc : Z)         (* c.session.Migrate(dc) of migrateToDc *)
   | ERestore.                 (* restoreConnection from the current storage content *)
 
@@ -90,6 +94,14 @@ Section Session.
   Definition step (st : state) (e : event) : state * option sess * bool :=
     match e with
     | ENotify n => let '(st', sv) := on_session st n in (st', sv, false)
+    | ENotifyMig n dc =>
+        (* saveSession takes DC, key and salt from what came with the notification (cfg, s), not from
+           the in-memory primary session: the record is unaffected; only c.session moves on *)
+        let '(st', sv) := on_session st n in
+        match sv with
+        | Some _ => (migrate st' dc, sv, false)
+        | None => (st', None, false)           (* ignored notification: saveSession is not reached *)
+        end
     | EMigrate dc => (migrate st dc, None, false)
     | ERestore => match restore st with Ok st' => (st', None, false) | _ => (st, None, true) end
     end.
@@ -101,12 +113,16 @@ Section Session.
                 let '(st'', out) := run st' t in (st'', sv :: out)
     end.
 
+  Definition ev_notif (e : event) : option notif :=
+    match e with ENotify n | ENotifyMig n _ => Some n | _ => None end.
+
   Definition init (dc : Z) : state := mkState (mkSess dc k0 0) None [] [].
 End Session.
 
 Arguments mkNotif {K}.
 Arguments mkSess {K}.
 Arguments ENotify {K}.
+Arguments ENotifyMig {K}.
 Arguments EMigrate {K}.
 Arguments ERestore {K}.
 Arguments mkState {K}.
